@@ -180,6 +180,20 @@ func (w *sketchWorld) newSketch(slot int) *realSketch {
 	pos := newRealStore(in.Pos, w.cfg.PosReal[slot])
 	neg := newRealStore(in.Neg, w.cfg.NegReal[slot])
 	base := ddsketch.NewDDSketch(m, pos, neg)
+	// every other slot is built through the library's preset constructor when the configuration is one the library
+	// offers ready-made (binds the presets to the kinds the specification assumes for them)
+	if p := w.preset(slot); p != nil && slot%2 == 0 {
+		base = p
+		if in.Variant == "exact" && in.Pos.Kind == "exact" && w.cfg.PosReal[slot] == "paged" {
+			ex, err := ddsketch.NewDefaultDDSketchWithExactSummaryStatistics(w.cfg.conc(in.M).spec.Alpha)
+			if err != nil {
+				panic("preset constructor refused alpha: " + err.Error())
+			}
+			return &realSketch{exact: ex, m: in.M}
+		}
+	} else if in.Variant == "exact" && slot%2 == 1 && in.Pos == in.Neg && w.cfg.PosReal[slot] == w.cfg.NegReal[slot] {
+		return &realSketch{exact: ddsketch.NewDDSketchWithExactSummaryStatistics(m, w.provider(slot)), m: in.M}
+	}
 	if in.Variant == "exact" {
 		ex, err := ddsketch.NewDDSketchWithExactSummaryStatisticsFromData(base, stat.NewSummaryStatistics())
 		if err != nil {
@@ -188,6 +202,33 @@ func (w *sketchWorld) newSketch(slot int) *realSketch {
 		return &realSketch{exact: ex, m: in.M}
 	}
 	return &realSketch{plain: base, m: in.M}
+}
+
+// preset returns the sketch built by the library's ready-made constructor matching slot's configuration, or nil
+func (w *sketchWorld) preset(slot int) *ddsketch.DDSketch {
+	in := w.cfg.Init[slot]
+	ms := w.cfg.conc(in.M).spec
+	if ms.Kind != "log" || in.Pos != in.Neg {
+		return nil
+	}
+	var sk *ddsketch.DDSketch
+	var err error
+	switch {
+	case in.Pos.Kind == "low":
+		sk, err = ddsketch.LogCollapsingLowestDenseDDSketch(ms.Alpha, in.Pos.N)
+	case in.Pos.Kind == "high":
+		sk, err = ddsketch.LogCollapsingHighestDenseDDSketch(ms.Alpha, in.Pos.N)
+	case w.cfg.PosReal[slot] == "dense" && w.cfg.NegReal[slot] == "dense":
+		sk, err = ddsketch.LogUnboundedDenseDDSketch(ms.Alpha)
+	case w.cfg.PosReal[slot] == "paged" && w.cfg.NegReal[slot] == "paged":
+		sk, err = ddsketch.NewDefaultDDSketch(ms.Alpha)
+	default:
+		return nil
+	}
+	if err != nil {
+		panic("preset constructor refused alpha: " + err.Error())
+	}
+	return sk
 }
 
 func newSketchWorld(cfg *SketchCfg) *sketchWorld {
